@@ -284,6 +284,7 @@ type c19Cfg struct {
 	endgame  bool
 	blms     int // blacklist duration
 	prtms    int // piece request min timeout
+	conntti  int // idle connection timeout (ms)
 }
 
 func c19IsAgent(r string) bool { return r == "a" || r == "k" }
@@ -350,6 +351,9 @@ func c19ParseCfg(cfg []string) (*c19Cfg, error) {
 	if c.prtms, _ = strconv.Atoi(kv["prtms"]); c.prtms <= 0 {
 		c.prtms = 500
 	}
+	if c.conntti, _ = strconv.Atoi(kv["conntti"]); c.conntti <= 0 {
+		c.conntti = 10000
+	}
 	return c, nil
 }
 
@@ -377,7 +381,7 @@ func c19RunSwarm(c *c19Cfg, timeout time.Duration, timeoutTok string) (recs []c1
 		SeederTTI:          5 * time.Minute,
 		LeecherTTI:         5 * time.Minute,
 		PreemptionInterval: 500 * time.Millisecond,
-		ConnTTI:            10 * time.Second,
+		ConnTTI:            time.Duration(c.conntti) * time.Millisecond,
 		ConnTTL:            5 * time.Minute,
 		ConnState:          connstate.Config{MaxOpenConnectionsPerTorrent: c.maxconn, BlacklistDuration: time.Duration(c.blms) * time.Millisecond},
 		Conn:               conn.ConfigFixture(),
@@ -702,14 +706,20 @@ func c19GenCfg(r *verifh.Rand) []string {
 			depart = append(depart, strconv.Itoa(seeders[r.Intn(len(seeders))])) // one honest seeder stays
 		}
 	}
-	maxconn := []int{2, 3, 5, 10}[r.Intn(4)]
+	// tight connection limits (1 and 2) make refused handshakes, connect-backs and slot reuse frequent
+	maxconn := []int{1, 2, 2, 3, 5, 10}[r.Intn(6)]
 	if maxconn < 3 && len(roles) > 5 {
 		maxconn = 3
+	}
+	conntti := 10000
+	if maxconn <= 2 {
+		conntti = 2000 // two starving agents holding each other's only slot give up quickly
 	}
 	return []string{fmt.Sprintf("pl=%d", pl), "blob=" + verifh.Hex(blob), "roles=" + verifh.List(roles),
 		fmt.Sprintf("maxconn=%d", maxconn), fmt.Sprintf("pipeline=%d", 1+r.Intn(4)), "delays=" + verifh.List(delays),
 		"depart=" + verifh.List(depart), fmt.Sprintf("departms=%d", r.Intn(120)), "endgame=" + verifh.Bool(r.Chance(3, 4)),
-		fmt.Sprintf("blms=%d", []int{300, 300, 1500}[r.Intn(3)]), fmt.Sprintf("prtms=%d", []int{500, 500, 2000}[r.Intn(3)])}
+		fmt.Sprintf("blms=%d", []int{300, 1500, 6000}[r.Intn(3)]), fmt.Sprintf("prtms=%d", []int{500, 500, 2000}[r.Intn(3)]),
+		fmt.Sprintf("conntti=%d", conntti)}
 }
 
 func TestVerif_C19(t *testing.T) {
